@@ -322,6 +322,33 @@ func gen(g *core.G) {
 		g.Emit("eq " + s(t) + " " + s(u))
 		g.Emit("eq " + s(u) + " " + s(t))
 	}
+	// same shape, one member replaced (lengths kept): partners that an equality by length, or by inclusion one way,
+	// takes for equal. Half of them start from a list-shaped type so that the replaced member sits at the top.
+	for i := 0; i < 1500*g.Scale; i++ {
+		t := lat.StripAlias(randTy(i))
+		if i%2 == 0 {
+			lg.Alias = false
+			switch i % 10 {
+			case 0, 2:
+				t = lat.Pat(lg.PatSrcs(1 + g.Rng.Intn(3))...)
+			case 4:
+				t = lg.EnumN(1 + g.Rng.Intn(3))
+			case 6:
+				t = lat.Var(lg.Ty(1), lg.Ty(1), lg.Ty(2))
+			default:
+				t = lat.Tup([]lat.Ty{lg.Ty(1), lg.Ty(2)})
+			}
+		}
+		lg.Alias = false // `eq` lines never hold aliases
+		u, ok := lg.SwapOne(t)
+		if !ok {
+			continue
+		}
+		g.Emit("eq " + s(t) + " " + s(u))
+		g.Emit("eq " + s(u) + " " + s(t))
+		g.Emit("asg " + s(t) + " " + s(u))
+		g.Emit("asg " + s(u) + " " + s(t))
+	}
 	for i := 0; i < 7000*g.Scale; i++ { // (ii) A ⊒ B ⊒ C by construction (intended)
 		a := randTy(i)
 		b := lg.Narrow(a)
